@@ -198,6 +198,15 @@ func httpEncodePathValues(input protoreflect.Message, target *routeTarget) (
 				)
 			}
 		}
+		if variableSize == -1 && variable.start+len(values) < len(segments) {
+			// The value has fewer parts than the pattern has segments, so it does not match
+			// (the router needs at least one segment for "**"). Without this check the
+			// unfilled wildcards would be emitted into the URL as if they were literals.
+			return "", nil, fmt.Errorf(
+				"expected field %s to match pattern %q: instead got %q",
+				variable.fieldPath, strings.Join(variable.index(segments), "/"), value,
+			)
+		}
 	}
 
 	// Encode the path URL.
